@@ -149,6 +149,17 @@ CLAIMS["C05"] = (
     "the object set. The invariant over all histories (C05_truthful) is stated in DESIGN.md and not yet proved (partial).",
     ARB_NOTE + " The mapping from changes/problems to events and status writes (processChanges / processProblems) is transcribed, not executed; converted cert-manager challenge Ingresses are excluded.", "DESIGN.md 7 C05")
 
+CLAIMS["C17"] = (
+    "Rocq theorems about nil-shape models (every Go pointer dereference or [0] is an explicit deref in code order behind the code's own guards): finite shape spaces swept inside Rocq and lifted by completeness of "
+    "the enumerations; an inductive proof for unbounded Ingress objects and all event histories; models tied to the code by a harness that materialises every shape and compares Ok/Rejected/Panic stage by stage with the "
+    "real Configuration, Configurator, templates and sync functions, plus a schema-directed random stream",
+    "Machine-checked proof (no axioms) that in the model no API-admissible Ingress - any number of rules and paths, any history of upserts and deletions, all feature flags - panics in validation, arbitration, "
+    "extension/generation or deletion, and that no shape of the stated optional-structure spaces of VirtualServer, VirtualServerRoute, TransportServer, Policy and GlobalConfiguration panics in validation, arbitration or "
+    "the modelled generator dereferences; on every run the model is compared with the real code on every shape (exhaustive) and a random stream of schema-admissible objects must not panic. Two genuine panics (F05, F43) repaired.",
+    "Trusted: Rocq kernel; the hand-written models; the harness and fixtures; the transcribed API-server rules for built-in kinds; a small interpreter of the published CRD YAML (the real structural-schema validator cannot be "
+    "compiled offline). Not proved: value-dependent panics; non-modelled parts of the CRD generators/templates (exercised on every shape). Not driven: App Protect/DoS resources, IngressLink, ConfigMap parsing, status updater.",
+    "DESIGN.md 7 C17")
+
 NOT_YET = {}
 
 
